@@ -46,6 +46,13 @@ def obligations(repo):
                                r"C09\.depth limit constant"], min_checks=10, timeout=300))
     # experimentation hooks (not used by any tier)
     for o in obs:
-        if "OB" in os.environ and o["id"].startswith("C09.lex.tokenize"):
-            o["object_bits"] = int(os.environ["OB"])
+        if o["id"].startswith("C09.lex.tokenize"):
+            if "OB" in os.environ:
+                o["object_bits"] = int(os.environ["OB"])
+            if "SC" in os.environ:
+                o["annotate"] = [("src/lexer.c", os.environ["SC"])]
+            if "DEF" in os.environ:
+                for kv in os.environ["DEF"].split():
+                    k, v = kv.split("=")
+                    o["defines"][k] = v
     return obs
